@@ -196,6 +196,9 @@ def m_reindent(unit):
     return f
 
 
+ENCODINGS = {"latin1": ("latin-1", "caf\u00e9 \u00f1and\u00fa"), "shiftjis": ("shift_jis", "\u65e5\u672c\u8a9e\u30c6\u30ad\u30b9\u30c8"), "cp1252": ("cp1252", "\u00c1rbol \u20ac")}
+
+
 def m_eol(kind):
     def f(v: Variant):
         t = v.text
@@ -211,6 +214,18 @@ def m_eol(kind):
             b = t.rstrip("\n").encode("utf-8")
         elif kind == "bom":
             b = b"\xef\xbb\xbf" + t.encode("utf-8")
+        elif kind == "mixed-cr":
+            # an LF file in which one line (the first) ends in a lone CR - a line end for Python, not for a unified diff
+            if t.count("\n") < 2:
+                return None
+            b = t.replace("\n", "\r", 1).encode("utf-8")
+        elif kind in ENCODINGS:
+            # a source that is not UTF-8: coding cookie (PEP 263) + a non-ASCII literal, stored in the declared encoding
+            cookie, literal = ENCODINGS[kind]
+            if not t.endswith("\n") or t.startswith("#!") or not t.isascii():
+                return None
+            t2 = f"# -*- coding: {cookie} -*-\n" + t + f"ENC_MARK = \"{literal}\"\n"
+            return Variant(t2, t2.encode(cookie), v.dline + 1, v.dcol, v.shift_ok)
         else:
             raise ValueError(kind)
         return Variant(t, b, v.dline, v.dcol, v.shift_ok)
@@ -257,6 +272,9 @@ _reg("eol:crlf", "eol", 9, m_eol("crlf"), True)
 _reg("eol:cr", "eol", 9, m_eol("cr"), True)
 _reg("eol:nofinal", "eol", 9, m_eol("nofinal"), True)
 _reg("eol:bom", "eol", 9, m_eol("bom"), True)
+_reg("eol:mixed-cr", "eol", 9, m_eol("mixed-cr"), True)
+for _k in ENCODINGS:
+    _reg(f"enc:{_k}", "eol", 9, m_eol(_k), False)
 
 
 def register_structural():
